@@ -143,18 +143,6 @@ def shrink_divergence(prop, dv, want_property_failure):
         impl, model = dom.normalize(small, impl, model)
     return dict(dv, lines=small, impl=impl, model=model, at=corr.first_diff(impl, model))
 
-def matches_known(prop, dv, why, known):
-    for k in known:
-        if k.get("property") != prop or k.get("status") != "known":
-            continue
-        sig = k.get("signature", {})
-        if sig.get("domain") and sig["domain"] != dv["part"]["domain"]:
-            continue
-        if sig.get("why_contains") and sig["why_contains"] not in (why or ""):
-            continue
-        return k
-    return None
-
 def run_check(prop, spec, tier, seed):
     t0 = time.time()
     res = Result()
@@ -202,13 +190,10 @@ def run_check(prop, spec, tier, seed):
     failing = [(d, why) for d, why in prop_fail if why]
     nonfailing = [d for d, why in prop_fail if not why]
     seen_sig = set()
+    # NOTE: the models contain the recorded (known) defects, so a known finding never shows up as a
+    # divergence; every divergence is reported. Known findings are reported only by their dedicated
+    # witness routines below (spec["known_finding_checks"]), which test the exact recorded witness.
     for d, why in failing:
-        k = matches_known(prop, d, why, known)
-        if k:
-            line = "KNOWN-FINDING: property=%s %s" % (prop, k["what_fails"])
-            if line not in res.known_lines:
-                res.known_lines.append(line)
-            continue
         sig = why.split("|")[0]
         if sig in seen_sig:
             continue
